@@ -524,6 +524,7 @@ class Context:
         self.writes = []             # heap write log (buffer ids), filled by arrays.Buffer
         self.events = []
         self.trace_fork = None       # TraceFork while a function is being traced
+        self.loop = None             # LoopCtx while a loop body is executed on a generic iteration
         self.safety = []             # safety obligations collected during evaluation
 
     # --- assumptions
@@ -653,6 +654,8 @@ class Context:
             return True
         if self.entails(c.neg()):
             return False
+        if self.loop is not None and self.loop.itname in {a for a in c.atoms() if isinstance(a, str)}:
+            return self.loop.decide_int(c)
         raise NeedSplit(c)
 
     def possible(self, c):
@@ -688,11 +691,21 @@ def explore(fn, base=(), max_leaves=4000):
     def rec():
         if CTX.infeasible():
             return
+        split = None
+        lvl = CTX.level
         try:
             res = fn()
         except NeedSplit as e:
+            split = e.cond
+        # (the except block is left before recursing so that frames / generators of the aborted run are released)
+        if split is not None:
+            import gc
+            if CTX.level != lvl:
+                gc.collect()
+            if CTX.level != lvl:
+                raise OutOfReach('assumption levels out of balance after an aborted trace')
             CTX.stats['splits'] += 1
-            for c in (e.cond, e.cond.neg()):
+            for c in (split, split.neg()):
                 n = CTX.push([c])
                 path.append(c)
                 try:
